@@ -191,6 +191,11 @@ resp0_ctx_send(void *arg, nni_aio *aio)
 
 	if (!p->busy) {
 		p->busy = true;
+		if (p->id == s->ctx.pipe_id) {
+			// The socket's own context holds a survey of this
+			// pipe; its response now has to wait for the pipe.
+			nni_pollable_clear(&s->writable);
+		}
 		len     = nni_msg_len(msg);
 		nni_aio_set_msg(&p->aio_send, msg);
 		nni_pipe_send(p->npipe, &p->aio_send);
